@@ -195,10 +195,13 @@ def run_scenario(chk, sc, cfgseed, recipe, flavour="sched", workers=None, pressu
     thermo = thermo_of(recipe)
     rng = random.Random(cfgseed)
     cfg_ = gamma.Config.draw(rng, ndims=3, payload="tame")
-    fields = THERMO_FIELDS if thermo else list(sc["fields"])
+    # concrete names of the input's fields: the thermochemical ones for cantera recipes; otherwise drawn from gamma's pools (prefix
+    # pairs, parentheses, dots; no blank: kept fields are given as one blank-separated string)
+    nm = gamma.names_map(cfgseed, list(sc["fields"]), blanks=False)
+    fields = THERMO_FIELDS if thermo else [nm[x] for x in sc["fields"]]
     fmap = {1: 1, 2: 2, 3: len(fields)}          # abstract field position -> concrete position
     nmap = {n: fields[fmap[i + 1] - 1] for i, n in enumerate(sc["fields"])}
-    nmap["zz"] = "zz"
+    nmap["zz"] = "zz" if thermo else nm["zz"]
     ap = compare.ap_from_scenario("A", fields, sc["levels"], ndims=3)
     d = chk.tmp()
     os.makedirs(d)
